@@ -26,6 +26,7 @@ namespace sqops
 namespace sim
 {
     const char* const harness_name = "seq";
+    const bool caller_threads_enabled = true;
 #define X(n) #n,
     const char* const op_names[] = {SEQ_OPS(X)};
 #undef X
@@ -574,7 +575,7 @@ namespace
         void run_all()
         {
             check_all();
-            for (const Step& st : plan.steps) step(st);
+            for (const Step& st : plan.steps) as_caller(run, st, [&] { step(st); });
         }
     };
 
